@@ -15,6 +15,12 @@ PROP = {
         wt_engine("C02"),
         {"name": "ml", "crate": "core", "bin": "sv-ml", "machine": "ml", "reasons": r"map-.*|lane-map-.*|write-result-.*|unparsable.*",
          "cases": {"quick": 3000, "thorough": 300000}, "min_shard": 500, "nontrivial_min_ops": 6},
+        # the same op language and machine, but every command is an encoded MapMessage dispatched by the REAL
+        # DecodeWithAndSelectApply (decode_and_select_apply + decode_shared_and_select_apply) to a lane found at run
+        # time through a SelectorFn (dynamically opened lanes of connector agents); sync through MapLaneSelectSync
+        {"name": "ml-select", "crate": "core", "bin": "sv-mlsel", "machine": "ml",
+         "reasons": r"map-.*|lane-map-.*|write-result-.*|unparsable.*",
+         "cases": {"quick": 1500, "thorough": 100000}, "min_shard": 500, "nontrivial_min_ops": 6},
         {"name": "eq-agent", "crate": "core", "bin": "sv-eq", "machine": "eq", "gen_args": ["agent"],
          "cases": {"quick": 4000, "thorough": 400000}, "min_shard": 1000},
         {"name": "eq-runtime", "crate": "core", "bin": "sv-eq", "machine": "eq", "gen_args": ["runtime"],
@@ -33,7 +39,9 @@ PROP = {
                   "generated step; take/drop leave exactly content.drop n / content.take n (map proved sorted along "
                   "every run); the real MapLane (BTreeMap backing: "
                   "update/remove/clear/take/drop/sync/write_to_buffer) and the real uplink map path are tied by "
-                  "differential execution; monitors check replica convergence at quiescence.",
+                  "differential execution (also with every command dispatched by the real DecodeWithAndSelectApply to a "
+                  "dynamically selected lane, BTreeMap and HashMap backings); monitors check replica convergence "
+                  "at quiescence.",
     "level_note": "No open statements. The lane model (sorted map, indexed event queue, WriteQueues alternation with "
                   "sync requests, vanished-key loop, take/drop) is proved to refine the specification agent and to "
                   "converge; the composition agent queue + runtime queue is proved at specification level, the "
